@@ -88,6 +88,7 @@ class Desc:
         self.enums = []  # (name, [(ename, value)])
         self.structs = []  # (name, [(fname, id, type)])
         self.extra = ""
+        self.params = {}  # (struct, field) -> text of the field's parameters (" | unit(...) | range(...)")
 
     def text(self):
         out = ['version: "3"', ""]
@@ -99,7 +100,7 @@ class Desc:
         for name, fs in self.structs:
             out.append(f"struct {name} {{")
             for fn, fid, t in fs:
-                out.append(f"    {fn} @ {fid}: {type_text(t)},")
+                out.append(f"    {fn} @ {fid}: {type_text(t)}{self.params.get((name, fn), '')},")
             out.append("}")
         return "\n".join(out) + "\n" + self.extra
 
@@ -123,6 +124,7 @@ class Desc:
         d = Desc()
         d.enums = list(self.enums)
         d.extra = self.extra
+        d.params = dict(self.params)
         for name, fs in self.structs:
             fs2 = list(fs)
             rng.shuffle(fs2)
@@ -164,7 +166,7 @@ def big_ids(rng, nf):
     return [h * 256 + rng.randint(0, 3) for h in highs]
 
 
-def gen_codec_desc(rng, max_structs=4, max_fields=6, depth=3, var=True):
+def gen_codec_desc(rng, max_structs=4, max_fields=6, depth=3, var=True, dup_ids=True):
     d = Desc()
     d.enums = gen_enums(rng, rng.randint(0, 2), big=True)
     enames = [e[0] for e in d.enums]
@@ -176,7 +178,7 @@ def gen_codec_desc(rng, max_structs=4, max_fields=6, depth=3, var=True):
             ids.sort()
         if rng.random() < 0.2:
             ids = big_ids(rng, nf)
-        if nf >= 2 and rng.random() < 0.1:
+        if dup_ids and nf >= 2 and rng.random() < 0.1:
             # two fields with one id (accepted by parser and verifier): both are fields of the struct, the one declared first
             # comes first on the wire
             a, b = rng.sample(range(nf), 2)
